@@ -10,6 +10,7 @@ def run(ctx):
     O.opt1_shared_optional_payload(ctx)
     M.lit2_catalogue_literals(ctx)
     M.nul1_null_map_never_ignored(ctx)
+    M.nul2_bitmap_ones_fill_whole_bytes_only(ctx)
     return ctx.finish(
         'Static rules on the compaction path, which re-encodes every column through a second decode '
         'routine the query path never uses: that routine handles every codec op and every '
